@@ -94,7 +94,7 @@ def _en(level=None):
 
 
 def _stats():
-    return [int(x) for x in C.solver.statistics]
+    return problems.user_stats(C.solver)
 
 
 def _emit(e):
